@@ -1,6 +1,7 @@
 #!/usr/bin/env python3
 """Run the quick check of each seeded change's property with the change applied to /repo
 (undone straight afterwards); write seeded/RESULTS.json and seeded/RESULTS.md.
+The check runs with VERIF_FAILFAST=1 (stop at the first violation) unless VERIF_FAILFAST=0 is set.
 
 usage: campaign.py [id ...]     (default: all)
 """
@@ -33,7 +34,7 @@ def main():
             continue
         t = time.time()
         try:
-            c = sh(f"/verif/check {prop} quick 2>/dev/null", timeout=3000)
+            c = sh(f"/verif/check {prop} quick 2>/dev/null", timeout=3000, env=dict(os.environ, VERIF_FAILFAST=os.environ.get("VERIF_FAILFAST", "1")))
             out, rc = c.stdout, c.returncode
         except subprocess.TimeoutExpired:
             out, rc = "", -1
